@@ -17,6 +17,23 @@ pub proof fn fact_replace_str_pattern(s: Seq<char>, from: &str, to: Seq<char>)
     ensures str_replace_p::<&str>(s, from, to) == str_replace(s, from@, to)
 {}
 
+// the text that is actually signed / verified for canonical bytes `b` (metadata.rs: `.replace("\\n", "\n")` on the canonical JSON)
+pub open spec fn signed_text(b: Seq<u8>) -> Seq<u8> {
+    vstd::utf8::encode_utf8(str_replace(vstd::utf8::decode_utf8(b), "\\n"@, "\n"@))
+}
+// std's documented meaning of `s.replace("\\n", "\n")`: leftmost, non-overlapping occurrences of backslash+'n' become a line feed
+pub open spec fn unesc_nl(s: Seq<char>) -> Seq<char>
+    decreases s.len()
+{
+    if s.len() == 0 { seq![] }
+    else if s.len() >= 2 && s[0] == '\\' && s[1] == 'n' { seq!['\n'] + unesc_nl(s.subrange(2, s.len() as int)) }
+    else { seq![s[0]] + unesc_nl(s.subrange(1, s.len() as int)) }
+}
+#[verifier::external_body]
+pub proof fn fact_replace_is_unesc_nl(s: Seq<char>)
+    ensures str_replace(s, "\\n"@, "\n"@) == unesc_nl(s)
+{}
+
 // by-value iteration of a HashMap: some duplicate-free enumeration of exactly its entries
 #[verifier::prophetic]
 pub open spec fn hm_into_iter_post<K, V, S, A: std::alloc::Allocator>(m: HashMap<K, V, S, A>, iter: std::collections::hash_map::IntoIter<K, V, A>) -> bool {
